@@ -15,7 +15,7 @@ ALIAS = ["reshape_rt", "transpose_rt", "getall", "ravel_rt", "ident_add0", "expa
 SPARSE = ["gather", "rev", "slice_pad", "take1"]
 REDUCE = ["sum_b", "mean_b", "cumsum", "dot_b", "einsum3", "concat3", "stack_mean", "where2"]
 CONTROL = ["if_pos", "while_half", "rec_pow", "closure_scale", "if_truthy", "while_truthy", "nested_indep"]
-USER = ["log_scale", "log_mul", "log_tri"]
+USER = ["log_scale", "log_mul", "log_tri", "log_ident"]
 
 
 def gen_program(rng, n_ops=12, shape=(3,), p_dead=0.15, p_multi=0.2, families=("unary", "binary", "alias", "sparse", "reduce", "control", "user"), fan=3, n_out=1):
@@ -233,6 +233,8 @@ def interpret_values(prog, x, xp, user=None, on_op=None, blog=None):
             r = user["log_scale"](a, p["c"], k)
         elif name == "log_mul":
             r = user["log_mul"](a, b, k)
+        elif name == "log_ident":
+            r = user["log_ident"](a, k)
         else:
             raise ValueError(name)
         vals.append(r)
